@@ -632,8 +632,13 @@ class Circuit(Function):
             prefix = name + '@'
 
         mapping: dict[gate.Label, gate.Label] = {}
+        # base inputs fed by an attached gate that already feeds another base input
+        repeated_connectors: dict[gate.Label, gate.Label] = {}
         for i, old_name in enumerate(other_connectors):
-            mapping[old_name] = this_connectors[i]
+            if right_connect and old_name in mapping:
+                repeated_connectors[this_connectors[i]] = mapping[old_name]
+            else:
+                mapping[old_name] = this_connectors[i]
 
         old_to_new_names = copy.copy(mapping)
         gates_for_block: set[gate.Label] = set()
@@ -666,6 +671,14 @@ class Circuit(Function):
                         gate_type=cur_gate.gate_type,
                         operands=replaced_operands,
                     )
+
+        for repeated_label, carrier_label in repeated_connectors.items():
+            self._add_user(carrier_label, repeated_label)
+            self._gates[repeated_label] = gate.Gate(
+                label=repeated_label,
+                gate_type=gate.IFF,
+                operands=(carrier_label,),
+            )
 
         self.set_outputs(
             [output for output in self._outputs if output not in this_connectors]
